@@ -23,14 +23,22 @@ class MinMaxValue(GenericValue):
 
         if self._new_value is undefined:
             self._new_value = clone(other)
-            if self._old_value is undefined or ignore_old_value():
-                return True
-            return self._return(self.cmp(self._old_value, other))
-        else:
-            if not self.cmp(self._new_value, other):
-                self._new_value = clone(other)
+        elif not self.cmp(self._new_value, other):
+            self._new_value = clone(other)
 
-        return self._return(self.cmp(self._visible_value(), other))
+        if self._old_value is undefined:
+            return True
+
+        if ignore_old_value() or state().update_flags.create:
+            # the comparison returns True, which allows to run the whole test,
+            # but a failed comparison with the current value has to be counted
+            try:
+                result = self.cmp(self._old_value, other)
+            except Exception:
+                result = False
+            return self._return(result)
+
+        return self._return(self.cmp(self._old_value, other))
 
     def _new_code(self):
         return self._file._value_to_code(self._new_value)
